@@ -7,6 +7,7 @@ import (
 	"strings"
 	"time"
 
+	"github.com/fufuok/cache/internal/vshim/sched"
 	vtime "github.com/fufuok/cache/internal/vshim/time"
 )
 
@@ -200,7 +201,19 @@ func entryClass(s *CState, k int) string {
 func (ci *cacheSeqInst) Apply(ev int, check bool) (string, string) {
 	in := ci.events[ev]
 	pre := ci.m
-	got := execCacheOp(ci.c, in, ci.l, nil)
+	var got COut
+	if check && in.Op != CTick {
+		// the call under test runs as the only thread of the controlled scheduler, so that a call
+		// that cannot return (e.g. a callback invoked under an internal lock re-entering the cache)
+		// is reported as a deadlock instead of hanging the harness
+		r := sched.Run([]sched.Body{func() { got = execCacheOp(ci.c, in, ci.l, nil) }}, sched.Config{Horizon: 2_000_000})
+		if r.Outcome != sched.OComplete {
+			ci.log = append(ci.log, fmt.Sprintf("%v -> does not return", in))
+			return fmt.Sprintf("%s: the call does not return (%s)", in.Op, r.Outcome), fmt.Sprintf("call %v: %s %s", in, r.Outcome, r.Detail)
+		}
+	} else {
+		got = execCacheOp(ci.c, in, ci.l, nil)
+	}
 	ex, ns := cacheApply(ci.m, in)
 	if !check {
 		// replay of a validated prefix: effects only, plus the observation of lazy removals
